@@ -158,15 +158,22 @@ def explore_shards(prop, cfg, tier, drv, seed=1, runner=None, nsplit=16):
     scopes = EXPLORE[tier]
     if prop in ("C07", "C08", "C09") and runner is not None and getattr(runner, "driver", None):
         drv, scopes = runner.driver, EXPLORE_PY[tier]
+    elif cfg.get("target") == "arena":
+        scopes = [("arena", 5)] if tier == "quick" else [("arena", 6), ("arena", 7)]
     elif cfg.get("target") != "rust" or cfg.get("gen") or prop in EXT:
         return [], []
     texts = [[] for _ in range(nsplit)]
     info = []
     k = 0
-    for cap, u, depth, start in scopes:
-        start = start.replace(":S:", ":%d:" % (seed % 100000))
-        r = subprocess.run([drv, "--explore", str(cap), str(u), str(EXPLORE_MAXSTATES), str(depth), start],
-                           stdout=subprocess.PIPE, stderr=subprocess.PIPE, timeout=1800)
+    for sc in scopes:
+        if sc[0] == "arena":
+            cap, u, depth, start = 0, sc[1], 0, "-"
+            cmd = [drv, "--explore-arena", str(u)]
+        else:
+            cap, u, depth, start = sc
+            start = start.replace(":S:", ":%d:" % (seed % 100000))
+            cmd = [drv, "--explore", str(cap), str(u), str(EXPLORE_MAXSTATES), str(depth), start]
+        r = subprocess.run(cmd, stdout=subprocess.PIPE, stderr=subprocess.PIPE, timeout=1800)
         m = re.search(r"EXPLORE cap=(\d+) keys=(\d+) states=(\d+) transitions=(\d+) longest_path=(\d+) closed=(\w+)", r.stderr.decode())
         if r.returncode != 0 or not m:
             raise RuntimeError("model driver --explore %d %d failed: %s" % (cap, u, r.stderr.decode()[-300:]))
